@@ -3,6 +3,7 @@ package types
 import (
 	"fmt"
 	"strconv"
+	"unicode/utf8"
 
 	"github.com/lyraproj/issue/issue"
 	"github.com/lyraproj/pcore/px"
@@ -139,11 +140,19 @@ type parser struct {
 	lt *token
 }
 
+// location is the line and column where the last token starts. The reader stands right after that token,
+// so its length in characters (not bytes) is subtracted. When the lexer itself failed there is no such
+// token (lt is nil) and the location is that of the offending character, i.e. the reader's position.
 func (p *parser) location(fileName string) issue.Location {
-	return issue.NewLocation(fileName, p.sr.Line(), p.sr.Column()-len(p.lt.s))
+	c := p.sr.Column()
+	if p.lt != nil {
+		c -= utf8.RuneCountInString(p.lt.s)
+	}
+	return issue.NewLocation(fileName, p.sr.Line(), c)
 }
 
 func (p *parser) nextToken() *token {
+	p.lt = nil
 	t := nextToken(p.sr)
 	p.lt = t
 	return t
